@@ -14,6 +14,9 @@ Open Scope Z_scope.
 """
 
 
+HEADER_R = HEADER.replace('C11.PSplineSys.', 'C11.PSplineSys C11.Effects gen.GenBandEffects.')
+
+
 def _imp():
     from pybaselines import _banded_utils as bu
     return bu
@@ -122,7 +125,9 @@ def apply_op(s, op):
         except ValueError:
             pass
     elif op[0] == 'clob':
-        s.penalty[...] = np.array(op[1], dtype=float)
+        v = np.array(op[1], dtype=float)
+        if v.shape == s.penalty.shape:      # the model's Clobber: another shape is not an overwrite of this buffer
+            s.penalty[...] = v
     elif op[0] == 'set':
         s.penalty = np.array(op[1], dtype=float)
     else:
@@ -360,6 +365,10 @@ def search(ctx, budget):
     # 4. PSpline (the P-spline subclass re-uses its penalty through reset_penalty_diagonals;
     #    padding = spline_degree - diff_order is <= 0 for diff_order >= spline_degree)
     found += pspline_histories(ctx, 25 * budget)
+    # 6. requests that are REJECTED (exception caught by the caller): the object must be unchanged, the next
+    #    accepted request must give the directly built system, the penalty must be lam * D'D
+    found += rejected_histories(ctx, 250 * budget)
+    found += pspline_rejected_histories(ctx, 60 * budget)
     return found
 
 
@@ -591,6 +600,673 @@ def pspline_histories(ctx, n):
                      f'built directly with the final settings (degree={degree}, num_knots={num_knots}, c0={c0}, ops={ops})', case)
             found += 1
     return found
+
+
+# ---------------------------------------------------------------- requests that may be REJECTED
+# A request is ('req', lam, diff_order, allow_lower, reverse_diags, allow_pentapy, padding) with lam an int or a
+# list of ints (non-scalar lam).  It is VALID iff lam is a scalar > 0 and diff_order >= 0 (independent of the
+# implementation); invalid requests must raise ValueError and leave the object as it was.
+def is_req(op):
+    return isinstance(op, (tuple, list)) and len(op) == 7 and op[0] == 'req'
+
+
+def req_valid(r):
+    return not isinstance(r[1], (list, tuple)) and r[1] > 0 and r[2] >= 0
+
+
+def req_kwargs(r):
+    return dict(lam=r[1], diff_order=r[2], allow_lower=r[3], reverse_diags=r[4], allow_pentapy=r[5], padding=r[6])
+
+
+def snapshot(s):
+    """EVERY attribute of the object: identity and a copy of the value (arrays by content)."""
+    snap = {}
+    for k, v in vars(s).items():
+        if isinstance(v, np.ndarray):
+            snap[k] = (id(v), v.shape, v.dtype.str, v.copy())
+        else:
+            snap[k] = (id(v) if not isinstance(v, (int, float, bool, str, type(None), np.generic)) else None, None, None, v)
+    return snap
+
+
+def snapshot_diff(a, b):
+    """names of the attributes that differ between two snapshots (value, shape, or re-bound array)"""
+    out = []
+    for k in sorted(set(a) | set(b)):
+        if k not in a or k not in b:
+            out.append(k)
+            continue
+        x, y = a[k], b[k]
+        if isinstance(x[3], np.ndarray) or isinstance(y[3], np.ndarray):
+            if not (isinstance(x[3], np.ndarray) and isinstance(y[3], np.ndarray)) or x[1] != y[1] or x[2] != y[2] \
+                    or not np.array_equal(x[3], y[3], equal_nan=True):
+                out.append(k)
+            elif x[0] != y[0]:
+                out.append(k + '(re-bound)')
+        else:
+            try:
+                same = (x[3] is y[3]) or bool(x[3] == y[3]) or (x[3] != x[3] and y[3] != y[3])
+            except Exception:  # noqa
+                same = x[0] == y[0]
+            if not same:
+                out.append(k)
+    return out
+
+
+def apply_req(s, r):
+    """reset_diagonals(**r) with the exception caught; returns 'ok' or the exception's type name"""
+    try:
+        s.reset_diagonals(**req_kwargs(r))
+        return 'ok'
+    except Exception as exc:  # noqa
+        return type(exc).__name__
+
+
+def apply_rop(s, op, events=None, k=None):
+    """one operation of a history with requests; records (kind, position, detail) in events"""
+    if is_req(op):
+        before = snapshot(s) if events is not None else None
+        res = apply_req(s, op)
+        if events is not None:
+            if req_valid(op) and res != 'ok':
+                events.append(('valid-request-raises', k, res))
+            elif not req_valid(op):
+                if res == 'ok':
+                    events.append(('invalid-request-accepted', k, ''))
+                else:
+                    if res != 'ValueError':
+                        events.append(('wrong-exception', k, res))
+                    d = snapshot_diff(before, snapshot(s))
+                    if d:
+                        events.append(('rejected-request-changes-state', k, ', '.join(d)))
+    elif events is not None and (op == 'rev' or op[0] in ('pen', 'diag')):
+        # a use that raises (ill-shaped argument, reverse_penalty on lower bands) must leave the object as it was
+        before = snapshot(s)
+        try:
+            if op == 'rev':
+                s.reverse_penalty()
+            elif op[0] == 'pen':
+                s.add_penalty(np.array(op[1], dtype=float))
+            else:
+                s.add_diagonal(np.array(op[1], dtype=float))
+        except ValueError:
+            d = snapshot_diff(before, snapshot(s))
+            if d:
+                events.append(('raising-use-changes-state', k, ', '.join(d)))
+    else:
+        apply_op(s, op)
+
+
+EVENT_TEXT = {
+    'rejected-request-changes-state': 'rejected request #{k} {op} left the object changed in: {detail}',
+    'invalid-request-accepted': 'invalid request #{k} {op} was accepted',
+    'wrong-exception': 'invalid request #{k} {op} raised {detail} instead of ValueError',
+    'valid-request-raises': 'valid request #{k} {op} raised {detail}',
+    'raising-use-changes-state': 'operation #{k} {op} raised ValueError but left the object changed in: {detail}',
+}
+
+
+def event_key(kind):
+    return ('use:' if kind == 'raising-use-changes-state' else 'reset:') + kind
+
+
+def impl_rhistory(hp, N, r0, ops, events=None):
+    """PenalizedSystem(N, **r0) followed by ops (requests with the exception caught, reversals, uses, accepted
+    resets); 'rejected' when the constructor raises"""
+    bu = _imp()
+    old = bu._HAS_PENTAPY
+    bu._HAS_PENTAPY = hp
+    try:
+        try:
+            s = bu.PenalizedSystem(N, **req_kwargs(r0))
+        except ValueError:
+            return 'rejected'
+        for k, op in enumerate(ops):
+            apply_rop(s, op, events, k)
+        return observe(s)
+    finally:
+        bu._HAS_PENTAPY = old
+
+
+def final_request(r0, ops):
+    """(last VALID request, operations after it)"""
+    idx = max((i for i, o in enumerate(ops) if (is_req(o) and req_valid(o)) or is_cfg(o)), default=-1)
+    if idx < 0:
+        return r0, [o for o in ops if not is_req(o)]
+    last = ops[idx]
+    if is_cfg(last):
+        last = ('req',) + tuple(last)
+    return last, [o for o in ops[idx + 1:] if not is_req(o)]
+
+
+def dense_error(hp, N, r, obs):
+    """penalty of the observed system (right after the accepted request r) versus lam * D'D, densified through the
+    layout the object's own flags claim"""
+    d, lower, rev = obs[0], obs[1], obs[2]
+    pen = obs[7]
+    p = max(r[6], 0)
+    nbr = d + 1 if lower else 2 * d + 1
+    if len(pen) != nbr + (p if lower else 2 * p):
+        return f'penalty has {len(pen)} rows'
+    core = pen[:nbr] if lower else pen[p:p + nbr]
+    padrows = pen[nbr:] if lower else pen[:p] + pen[p + nbr:]
+    if any(v != 0 for row in padrows for v in row):
+        return 'non-zero padding rows'
+    if rev:
+        core = core[::-1]
+    A, cz = dense_from_bands(core, N, d, lower)
+    D = np.diff(np.eye(N), d, axis=0)
+    if not cz or not np.array_equal(A, r[1] * (D.T @ D)):
+        return 'penalty is not lam * D.T @ D in the layout the flags claim'
+    return None
+
+
+def rhistory_error(hp, N, r0, ops):
+    """(key, description) of the first failure of the property on this history, or None"""
+    events = []
+    try:
+        got = impl_rhistory(hp, N, r0, ops, events)
+    except Exception as exc:  # noqa
+        return 'history:raises', f'raised {type(exc).__name__}: {exc}'
+    if events:
+        kind, k, detail = events[0]
+        return event_key(kind), EVENT_TEXT[kind].format(k=k, op=str(ops[k])[:200], detail=detail)
+    if got == 'rejected':
+        return ('history:raises', 'valid constructor request raised ValueError') if req_valid(r0) else None
+    if not req_valid(r0):
+        return 'reset:invalid-request-accepted', f'the constructor accepted the invalid request {r0}'
+    last, tail = final_request(r0, ops)
+    try:
+        want = impl_rhistory(hp, N, last, tail)
+    except Exception as exc:  # noqa
+        return 'history:raises', f'the directly built system raised {type(exc).__name__}: {exc}'
+    if got != want:
+        names = ('diff_order', 'lower', 'reversed', 'using_pentapy', 'num_bands', 'main_diagonal_index',
+                 'original_diagonals', 'penalty', 'main_diagonal', 'shares_memory')
+        diff = [n for n, x, y in zip(names, got, want) if x != y]
+        return 'history:differs-from-fresh', ('differs from the system built directly with the last accepted request '
+                                              f'{last} in ' + ', '.join(diff))
+    if not tail:
+        err = dense_error(hp, N, last, got)
+        if err:
+            return 'history:penalty-not-lam-DtD', err
+    return None
+
+
+def shrink_rhistory(hp, N, r0, ops, key):
+    ops = list(ops)
+    changed = True
+    while changed:
+        changed = False
+        for i in range(len(ops)):
+            trial = ops[:i] + ops[i + 1:]
+            e = rhistory_error(hp, N, r0, trial)
+            if e and e[0] == key:
+                ops = trial
+                changed = True
+                break
+    return hp, N, r0, ops
+
+
+INVALID_KINDS = ('lam0', 'lamneg', 'lamlist', 'dneg', 'dneg+lam0', 'lamlist+dneg')
+
+
+def rand_req(rng, N, cur, hp, valid, kind=None):
+    """a request; when rejected requests are wanted they ask for a DIFFERENT diff_order / band layout / row order
+    than the current settings `cur` most of the time (that is where a half-done reset shows)"""
+    lam, d, al, rev, ap, pad = rand_cfg(rng, N)
+    u = rng.random()
+    if u < 0.6:
+        d = cur[1]                                   # same order: the conversion branch
+        cl = lay(hp, cur)
+        flip = rng.choice(['lower', 'rev', 'penta', 'both', 'any'])
+        if flip in ('lower', 'both'):
+            al, ap = (not cl[1]), False
+        if flip in ('rev', 'both'):
+            rev = not cl[2]
+        if flip == 'penta' and d == 2:
+            ap, rev = (not cur[4]), None
+    elif u < 0.85:
+        d = rng.choice([x for x in range(0, min(7, N)) if x != cur[1]] or [cur[1]])
+    if not valid:
+        kind = kind or rng.choice(INVALID_KINDS)
+        if 'lam0' in kind:
+            lam = 0
+        if 'lamneg' in kind:
+            lam = -rng.choice([1, 2, 5])
+        if 'lamlist' in kind:
+            lam = [rng.choice([1, 2, 3])] * rng.choice([2, 3])
+        if 'dneg' in kind:
+            d = -rng.choice([1, 1, 2, 3])
+    return ('req', lam, d, al, rev, ap, pad)
+
+
+def gen_rhistory(rng, Nmax, uses=True):
+    N = rng.choice([2, 3, 4, 5, 6, 7, 8, 9, 10, 12, 15]) if rng.random() < 0.8 else rng.randint(2, Nmax)
+    hp = rng.random() < 0.6
+    c0 = rand_cfg(rng, N)
+    r0 = ('req',) + c0
+    if rng.random() < 0.04:                          # a rejected constructor
+        r0 = rand_req(rng, N, c0, hp, False)
+    cur = c0
+    rows = pen_rows(hp, c0)
+    ops = []
+    p_rej = rng.choice([0.3, 0.5, 0.7])
+    p_use = rng.choice([0.0, 0.15, 0.3]) if uses else 0.0
+    for _ in range(rng.randint(1, 9)):
+        u = rng.random()
+        if u < p_use:
+            op, rows = rand_use(rng, N, rows, lay(hp, cur)[1])
+            ops.append(op)
+        elif u < p_use + 0.08:
+            ops.append('rev')
+        else:
+            valid = rng.random() >= p_rej
+            r = rand_req(rng, N, cur, hp, valid)
+            ops.append(r)
+            if valid:
+                cur = tuple(r[1:])
+                rows = pen_rows(hp, cur)
+    if rng.random() < 0.6:                           # close with an accepted request
+        r = rand_req(rng, N, cur, hp, True)
+        ops.append(r)
+    return hp, N, r0, ops
+
+
+def n_rejected(r0, ops):
+    return sum(1 for o in ops if is_req(o) and not req_valid(o))
+
+
+def rejected_layout_changes(hp, r0, ops):
+    """number of rejected requests that asked for another (diff_order, lower, reversed) than the current one"""
+    if not req_valid(r0):
+        return 0
+    cur = lay(hp, r0[1:])
+    n = 0
+    for o in ops:
+        if is_req(o):
+            if not req_valid(o):
+                if not isinstance(o[2], int) or o[2] < 0 or lay(hp, o[1:]) != cur:
+                    n += 1
+            else:
+                cur = lay(hp, o[1:])
+        elif is_cfg(o):
+            cur = lay(hp, o)
+        elif o == 'rev' and not cur[1]:
+            cur = (cur[0], cur[1], not cur[2])
+    return n
+
+
+def coq_req(r):
+    _, lam, d, al, rev, ap, pad = r
+    if isinstance(lam, (list, tuple)):
+        lam_v, lam_len = (lam[0] if lam else 1), len(lam)
+    else:
+        lam_v, lam_len = lam, 1
+    rv = 'None' if rev is None else f'(Some {coqbool(rev)})'
+    return (f'{{| q_lam := {zl(lam_v)}; q_lam_len := {lam_len}; q_d := {zl(d)}; q_allow_lower := {coqbool(al)}; '
+            f'q_rev := {rv}; q_allow_penta := {coqbool(ap)}; q_pad := {zl(pad)} |}}')
+
+
+def coq_rop(o):
+    if is_req(o):
+        return f'RReq {coq_req(o)}'
+    return f'ROp ({coq_op(o)})'
+
+
+# the histories reported to the lead at /repo 0f85b1f (lam validated after the layout attributes were overwritten)
+WITNESS_RHISTORIES = [
+    (False, 8, ('req', 1, 2, True, None, False, 0), [('req', 0, 2, False, None, False, 0)]),
+    (False, 8, ('req', 1, 2, True, None, False, 0), [('req', -1, 3, True, None, False, 0)]),
+    (True, 9, ('req', 2, 2, True, None, True, 0), [('req', 0, 2, True, None, False, 0), ('req', 3, 2, True, None, False, 0)]),
+    (False, 12, ('req', 1, 1, True, None, False, 0), [('req', 0, 1, False, None, False, 0), ('req', 5, 1, False, None, False, 0)]),
+    (False, 8, ('req', 1, 2, False, None, False, 1), [('req', [1, 1], 2, False, True, False, 0), ('req', 2, 2, False, None, False, 0)]),
+]
+
+
+def rejected_histories(ctx, n):
+    """oracle: histories with rejected requests on real PenalizedSystem objects"""
+    found = 0
+    cases = list(WITNESS_RHISTORIES) + [gen_rhistory(ctx.rng, 40) for _ in range(n)]
+    # every kind of invalid request at every position of a short history, against every current layout
+    for kind in INVALID_KINDS:
+        for al0 in (True, False):
+            for pos in range(3):
+                rng = ctx.rng
+                N = rng.choice([5, 7, 8, 11])
+                c0 = (rng.choice([1, 2, 3]), rng.choice([1, 2, 3]), al0, rng.choice([None, True, False]), rng.random() < 0.5, rng.choice([0, 1]))
+                hp = rng.random() < 0.5
+                ops, cur = [], c0
+                for k in range(3):
+                    r = rand_req(rng, N, cur, hp, k != pos, kind)
+                    ops.append(r)
+                    if k != pos:
+                        cur = tuple(r[1:])
+                ops.append(rand_req(rng, N, cur, hp, True))
+                cases.append((hp, N, ('req',) + c0, ops))
+    for (hp, N, r0, ops) in cases:
+        ctx.case(('o-rhist', hp, N, r0, repr(ops)), nontrivial=rejected_layout_changes(hp, r0, ops) > 0,
+                 kind='oracle:history-with-rejected-requests')
+        e = rhistory_error(hp, N, r0, ops)
+        if e:
+            key = e[0]
+            small = shrink_rhistory(hp, N, r0, ops, key)
+            e2 = rhistory_error(*small)
+            what = (e2 or e)[1]
+            ctx.fail(key, 'PenalizedSystem history with rejected requests: ' + what +
+                     f' (has_pentapy={small[0]}, N={small[1]}, constructor={small[2]}, ops={small[3]})',
+                     {'kind': 'rhistory', 'hp': small[0], 'N': small[1], 'r0': small[2], 'ops': small[3]})
+            found += 1
+    return found
+
+
+# ---- PSpline with rejected reset_penalty_diagonals requests
+# request: ('preq', lam, diff_order, allow_lower, reverse_diags)
+def is_preq(o):
+    return isinstance(o, (tuple, list)) and len(o) == 5 and o[0] == 'preq'
+
+
+def preq_valid(p):
+    return not isinstance(p[1], (list, tuple)) and p[1] > 0 and p[2] >= 0
+
+
+def impl_pspline_rhistory(hp, n_x, num_knots, degree, p0, ops, seed, events=None):
+    """PSpline(basis, *p0) followed by ops ('preq' requests with the exception caught, plus everything of
+    impl_pspline_history)"""
+    from pybaselines import _spline_utils as su
+    bu = _imp()
+    old = bu._HAS_PENTAPY
+    bu._HAS_PENTAPY = hp
+    try:
+        r = np.random.default_rng(seed)
+        x = np.linspace(0.0, 1.0, n_x)
+        y = r.normal(size=n_x)
+        w = r.uniform(0.1, 1.0, n_x)
+        basis = su.SplineBasis(x, num_knots, degree)
+        try:
+            ps = su.PSpline(basis, lam=p0[0], diff_order=p0[1], allow_lower=p0[2], reverse_diags=p0[3])
+        except ValueError:
+            return 'ValueError'
+        for k, op in enumerate(ops):
+            if is_preq(op):
+                before = snapshot(ps) if events is not None else None
+                try:
+                    ps.reset_penalty_diagonals(lam=op[1], diff_order=op[2], allow_lower=op[3], reverse_diags=op[4])
+                    res = 'ok'
+                except Exception as exc:  # noqa
+                    res = type(exc).__name__
+                if events is not None:
+                    if preq_valid(op) and res != 'ok':
+                        events.append(('valid-request-raises', k, res))
+                    elif not preq_valid(op):
+                        if res == 'ok':
+                            events.append(('invalid-request-accepted', k, ''))
+                        else:
+                            if res != 'ValueError':
+                                events.append(('wrong-exception', k, res))
+                            d = snapshot_diff(before, snapshot(ps))
+                            if d:
+                                events.append(('rejected-request-changes-state', k, ', '.join(d)))
+            elif op != 'rev' and op[0] == 'solve':
+                try:
+                    with np.errstate(all='ignore'):
+                        ps.solve_pspline(y, w)
+                except (np.linalg.LinAlgError, ValueError):
+                    pass
+            else:
+                apply_rop(ps, op, events, k)
+        return observe(ps)
+    finally:
+        bu._HAS_PENTAPY = old
+
+
+def gen_pspline_rhistory(rng):
+    degree = rng.choice([1, 2, 3, 3, 4])
+    num_knots = rng.choice([3, 4, 5, 6, 8])
+    nb = num_knots + degree - 1
+    n_x = rng.choice([15, 24])
+    hp = rng.random() < 0.5
+
+    def pcfg(cur=None, valid=True):
+        d = rng.randint(1, min(5, nb - 1))
+        al, rev = rng.random() < 0.5, rng.choice([None, False, False, True])
+        if cur is not None and rng.random() < 0.6:
+            d = cur[1]
+            flip = rng.choice(['lower', 'rev', 'both'])
+            if flip in ('lower', 'both'):
+                al = not cur[2]
+            if flip in ('rev', 'both'):
+                rev = not bool(cur[3])
+        lam = rng.choice([1, 1, 2, 5])
+        if not valid:
+            kind = rng.choice(INVALID_KINDS)
+            if 'lam0' in kind:
+                lam = 0
+            if 'lamneg' in kind:
+                lam = -rng.choice([1, 3])
+            if 'lamlist' in kind:
+                lam = [rng.choice([1, 2])] * 2
+            if 'dneg' in kind:
+                d = -rng.choice([1, 2])
+        return (lam, d, al, rev)
+    p0 = pcfg()
+    cur = p0
+    ops = []
+
+    def rows_of(p):
+        pad = max(degree - p[1], 0)
+        return (p[1] + 1 + pad) if p[2] else (2 * p[1] + 1 + 2 * pad)
+    rows = rows_of(p0)
+    p_rej = rng.choice([0.4, 0.6])
+    for _ in range(rng.randint(1, 7)):
+        u = rng.random()
+        if u < 0.65:
+            valid = rng.random() >= p_rej
+            p = pcfg(cur, valid)
+            ops.append(('preq',) + p)
+            if valid:
+                cur = p
+                rows = rows_of(p)
+        elif u < 0.75:
+            ops.append(('solve',))
+        elif u < 0.8:
+            ops.append('rev')
+        else:
+            op, rows = rand_use(rng, nb, rows, cur[2])
+            ops.append(op)
+    if rng.random() < 0.6:
+        ops.append(('preq',) + pcfg(cur, True))
+    return hp, n_x, num_knots, degree, p0, ops, rng.randint(0, 10 ** 6)
+
+
+def pspline_rhistory_error(hp, n_x, num_knots, degree, p0, ops, seed):
+    events = []
+    try:
+        got = impl_pspline_rhistory(hp, n_x, num_knots, degree, p0, ops, seed, events)
+    except Exception as exc:  # noqa
+        return 'pspline-history:raises', f'raised {type(exc).__name__}: {exc}'
+    if events:
+        kind, k, detail = events[0]
+        return event_key(kind), 'reset_penalty_diagonals / PSpline: ' + EVENT_TEXT[kind].format(k=k, op=str(ops[k])[:200], detail=detail)
+    idx = max((i for i, o in enumerate(ops) if is_preq(o) and preq_valid(o)), default=-1)
+    last = tuple(ops[idx][1:]) if idx >= 0 else p0
+    tail = [o for o in ops[idx + 1:] if not is_preq(o)]
+    if last[1] < 1:
+        return None          # reset_penalty_diagonals accepts diff_order 0, the constructor does not: nothing to compare
+    want = impl_pspline_rhistory(hp, n_x, num_knots, degree, last, tail, seed)
+    if got != want:
+        return 'pspline-history:differs-from-fresh', ('PSpline differs from the PSpline built directly with the last '
+                                                      f'accepted request {last}')
+    return None
+
+
+WITNESS_PSPLINE_RHISTORIES = [
+    (False, 20, 6, 3, (1, 2, True, False), [('preq', 0, 3, False, True)], 0),
+    (False, 20, 6, 3, (1, 2, True, False), [('preq', 0, 2, False, False), ('preq', 7, 2, False, False)], 0),
+    (False, 60, 8, 3, (1, 1, True, False), [('preq', 0, 1, True, True), ('preq', 7, 1, True, False)], 0),
+]
+
+
+def pspline_rejected_histories(ctx, n):
+    found = 0
+    cases = list(WITNESS_PSPLINE_RHISTORIES) + [gen_pspline_rhistory(ctx.rng) for _ in range(n)]
+    for c in cases:
+        hp, n_x, num_knots, degree, p0, ops, seed = c
+        ctx.case(('o-pspline-rhist',) + tuple(c[:5]) + (repr(ops),), nontrivial=any(is_preq(o) and not preq_valid(o) for o in ops),
+                 kind='oracle:pspline-history-with-rejected-requests')
+        e = pspline_rhistory_error(*c)
+        if e:
+            ops_s = list(ops)
+            changed = True
+            while changed:
+                changed = False
+                for i in range(len(ops_s)):
+                    trial = ops_s[:i] + ops_s[i + 1:]
+                    e2 = pspline_rhistory_error(hp, n_x, num_knots, degree, p0, trial, seed)
+                    if e2 and e2[0] == e[0]:
+                        ops_s, e, changed = trial, e2, True
+                        break
+            ctx.fail(e[0], 'PSpline history with rejected requests: ' + e[1] +
+                     f' (degree={degree}, num_knots={num_knots}, constructor={p0}, ops={ops_s})',
+                     {'kind': 'pspline-rhistory', 'hp': hp, 'n_x': n_x, 'num_knots': num_knots, 'degree': degree,
+                      'p0': p0, 'ops': ops_s, 'seed': seed})
+            found += 1
+    return found
+
+
+def coq_preq(p):
+    lam, d, al, rev = p
+    if isinstance(lam, (list, tuple)):
+        lam_v, lam_len = (lam[0] if lam else 1), len(lam)
+    else:
+        lam_v, lam_len = lam, 1
+    rv = 'None' if rev is None else f'(Some {coqbool(rev)})'
+    return (f'{{| pq_lam := {zl(lam_v)}; pq_lam_len := {lam_len}; pq_d := {zl(d)}; pq_allow_lower := {coqbool(al)}; '
+            f'pq_rev := {rv} |}}')
+
+
+def coq_prop(o):
+    if is_preq(o):
+        return f'PRReq {coq_preq(o[1:])}'
+    if o != 'rev' and o[0] == 'solve':
+        return 'PROp PSolve'
+    return f'PROp (POp ({coq_op(o)}))'
+
+
+OBS_DEFS = """Definition obs_t : Type := Z * bool * bool * bool * Z * Z * list (list Z) * list (list Z) * list Z * bool.
+Definition obs_eqb (a b : obs_t) : bool :=
+  let '(d1, l1, r1, p1, n1, m1, o1, q1, g1, a1) := a in
+  let '(d2, l2, r2, p2, n2, m2, o2, q2, g2, a2) := b in
+  (d1 =? d2) && Bool.eqb l1 l2 && Bool.eqb r1 r2 && Bool.eqb p1 p2 && (n1 =? n2) && (m1 =? m2)
+  && zll_eqb o1 o2 && zll_eqb q1 q2 && zl_eqb g1 g2 && Bool.eqb a1 a2.
+"""
+
+
+def _clean(vals):
+    return bool(vals) and (vals[0].startswith('(0%nat, [])') or vals[0].startswith('(0, [])'))
+
+
+def rejected_correspondence(ctx):
+    """model = the effect sequence extracted from the CURRENT source run by C11.Effects.exec inside Coq;
+    implementation = real objects with the exceptions caught; compared on the full observable state"""
+    rng = ctx.rng
+    # A. PenalizedSystem
+    nR = ctx.n(200, 2000)
+    lits = []
+    pool = [(h, True) for h in WITNESS_RHISTORIES] + [(gen_rhistory(rng, 24, uses=(k % 3 != 0)), False) for k in range(nR)]
+    for k, ((hp, N, r0, ops), _w) in enumerate(pool):
+        try:
+            got = impl_rhistory(hp, N, r0, ops)
+        except Exception as exc:  # noqa
+            ctx.fail('history:raises', f'history with rejected requests raised {type(exc).__name__}: {exc}',
+                     {'kind': 'rhistory', 'hp': hp, 'N': N, 'r0': r0, 'ops': ops})
+            continue
+        ctx.case(('rhist', hp, N, r0, repr(ops)), nontrivial=rejected_layout_changes(hp, r0, ops) > 0,
+                 kind=f'history-with-rejected:rejected={min(n_rejected(r0, ops), 4)}' + (':constructor-rejected' if got == 'rejected' else ''))
+        exp = 'None' if got == 'rejected' else f'(Some {coq_obs(got)})'
+        ops_l = '[' + '; '.join(coq_rop(o) for o in ops) + ']'
+        lits.append(f'({coqbool(hp)}, {N}%nat, {coq_req(r0)}, {ops_l}, {exp})')
+        if k == len(WITNESS_RHISTORIES) + 1:
+            ctx.sample({'kind': 'rhistory', 'has_pentapy': hp, 'N': N, 'constructor': r0, 'ops': ops})
+    ctx.traces += len(lits)
+    ob = 'correspondence:PenalizedSystem-histories-with-rejected-requests(extracted effect order)'
+    ctx.obligations.append(ob)
+    bad_any = False
+    per = 110
+    for k in range(0, len(lits), per):
+        sh = lits[k:k + per]
+        text = HEADER_R + OBS_DEFS + f"""
+Definition cases : list (bool * nat * req * list rop * option obs_t) := [
+{chr(10).join('  ' + l + (';' if i + 1 < len(sh) else '') for i, l in enumerate(sh))}
+].
+Definition ok (c : bool * nat * req * list rop * option obs_t) : bool :=
+  let '(hp, N, q0, ops, exp) := c in
+  match einit hp N reset_diagonals_effects q0, exp with
+  | Some u0, Some e => obs_eqb (uobserve (rrun hp N reset_diagonals_effects u0 ops)) e
+  | None, None => true
+  | _, _ => false
+  end.
+Eval vm_compute in (bad ok cases).
+"""
+        vals = ctx.coq_eval(f'rhist{k // per}', text)
+        if vals is None:
+            bad_any = True
+        elif not _clean(vals):
+            bad_any = True
+            ctx.broke(f'correspondence:rejected-history-shard{k // per}',
+                      'the effect sequence extracted from reset_diagonals, run by the model, and the PenalizedSystem disagree '
+                      f'after a history with rejected requests: {vals}')
+    if not bad_any:
+        ctx.discharged.append(ob)
+
+    # B. PSpline
+    nP = ctx.n(90, 900)
+    lits = []
+    for k in range(nP + len(WITNESS_PSPLINE_RHISTORIES)):
+        c = WITNESS_PSPLINE_RHISTORIES[k] if k < len(WITNESS_PSPLINE_RHISTORIES) else gen_pspline_rhistory(rng)
+        hp, n_x, num_knots, degree, p0, ops, seed = c
+        nb = num_knots + degree - 1
+        case = {'kind': 'pspline-rhistory', 'hp': hp, 'n_x': n_x, 'num_knots': num_knots, 'degree': degree, 'p0': p0,
+                'ops': ops, 'seed': seed}
+        try:
+            got = impl_pspline_rhistory(*c)
+        except Exception as exc:  # noqa
+            ctx.fail('pspline-history:raises', f'PSpline history with rejected requests raised {type(exc).__name__}: {exc}', case)
+            continue
+        ctx.case(('pspline-r', hp, n_x, num_knots, degree, p0, repr(ops)),
+                 nontrivial=any(is_preq(o) and not preq_valid(o) for o in ops), kind='pspline-history-with-rejected')
+        exp = 'None' if got == 'ValueError' else f'(Some {coq_obs(got)})'
+        ops_l = '[' + '; '.join(coq_prop(o) for o in ops) + ']'
+        lits.append(f'({coqbool(hp)}, {nb}%nat, {degree}, {coq_pcfg(p0)}, {ops_l}, {exp})')
+    ctx.traces += len(lits)
+    ob = 'correspondence:PSpline-histories-with-rejected-requests(extracted effect order)'
+    ctx.obligations.append(ob)
+    bad_any = False
+    per = 150
+    for k in range(0, len(lits), per):
+        sh = lits[k:k + per]
+        text = HEADER_R + OBS_DEFS + f"""
+Definition cases : list (bool * nat * Z * pcfg * list prop_ * option obs_t) := [
+{chr(10).join('  ' + l + (';' if i + 1 < len(sh) else '') for i, l in enumerate(sh))}
+].
+Definition ok (c : bool * nat * Z * pcfg * list prop_ * option obs_t) : bool :=
+  let '(hp, nb, deg, p0, ops, exp) := c in
+  match pinit hp nb deg p0, exp with
+  | Some u0, Some e => obs_eqb (uobserve (prrun hp nb deg reset_diagonals_effects u0 ops)) e
+  | None, None => true
+  | _, _ => false
+  end.
+Eval vm_compute in (bad ok cases).
+"""
+        vals = ctx.coq_eval(f'prhist{k // per}', text)
+        if vals is None:
+            bad_any = True
+        elif not _clean(vals):
+            bad_any = True
+            ctx.broke(f'correspondence:pspline-rejected-history-shard{k // per}',
+                      f'model and PSpline disagree after a history with rejected reset_penalty_diagonals requests: {vals}')
+    if not bad_any:
+        ctx.discharged.append(ob)
 
 
 # ---------------------------------------------------------------- correspondence
@@ -936,27 +1612,38 @@ def run(ctx):
                 '(lam,diff_order,allow_lower,reverse_diags,allow_pentapy,padding; lam = 1 and padding <= 0 over-sampled), '
                 'reverse_penalty and USES (add_diagonal, add_penalty, in-place overwrite, re-binding of penalty; integer arguments) '
                 'with pentapy present/absent; PSpline histories (constructor incl. rejected orders, reset_penalty_diagonals with changing diff_order, solve_pspline, uses) over spline degrees 1-4 and 3-8 knots; distinct = distinct canonical case; non-trivial = d>0 and N>d for band cases, '
-                'at least one (lower,reversed) layout change or one reset after a use for histories')
+                'at least one (lower,reversed) layout change or one reset after a use for histories; histories WITH REJECTED '
+                'requests (lam 0 / negative / a list, diff_order negative, combinations; at every position; asking for another '
+                'diff_order / lower / pentapy / reversed layout than the current one; also as the constructor call and as the last '
+                'operation) on PenalizedSystem and PSpline, non-trivial = a rejected request asked for a different layout')
     ctx.trusted += [
         'scipy.sparse D.T @ D + _sparse_to_banded (general path, d>3 or N<2d+1) is modelled as the specification; '
         'dense-checked against np.diff(np.eye(N),d) by the oracle for every generated size',
-        'lam restricted to positive integers in histories (exact float arithmetic); failing resets (lam<=0) not modelled',
+        'lam restricted to integers in histories (exact float arithmetic); rejected requests are lam = 0, lam < 0, a list as lam, '
+        'diff_order < 0 (non-finite or non-numeric lam / padding and non-integer diff_order are TypeError/KeyError territory, not modelled)',
+        'tools/gen_band_effects.py classifies what can raise: raise statements, module functions that (transitively) contain raise, '
+        '_check* validators, and in methods any other imported function; NumPy functions, array methods, arithmetic and indexing '
+        'are taken as not raising on request parameters; branches are flattened in source order',
         'buffer identities in the model (which NumPy operation allocates, which returns a view or its argument) are a hand '
         'transcription; they are tied to the code by comparing np.shares_memory(penalty, original_diagonals) and the contents '
         'after every generated history; SetPen/Clobber are exercised with arrays of the current penalty shape only',
     ]
     ctx.gate()
-    ctx.translate(['GenBands', 'GenBandPurity'])
+    ctx.translate(['GenBands', 'GenBandPurity', 'GenBandEffects'])
     ok = ctx.build_props()
     correspondence(ctx)
     pspline_correspondence(ctx)
+    rejected_correspondence(ctx)
     budget = 1 if (ok and not ctx.broken) else 4
     if ctx.tier == 'thorough':
         budget = max(budget, 3)
     found = search(ctx, budget)
     ctx.note(f'direct oracle budget x{budget}: {found} failing inputs; general-path sizes in Coq limited to N<{ctx.n(16, 40)}; '
              'PenalizedSystem2D / WhittakerSystem2D (sparse 2-D penalties) are outside the banded model; freshness of results (no caching / sharing between calls) '
-             'is a translator refusal rule (GenBandPurity) plus an oracle, not a theorem')
+             'is a translator refusal rule (GenBandPurity) plus an oracle, not a theorem; requests with diff_order >= data size are '
+             'outside the domain of C11 (N > d) and not generated: on the current source reset_diagonals(diff_order >= N, allow_lower=True) '
+             'raises IndexError in _update_bands after every attribute was overwritten, and with allow_lower=False it is accepted with a '
+             '1-row zero penalty (reported to the lead as an observation, not a failure)')
 
 
 def _decode_op(o):
@@ -981,6 +1668,16 @@ def replay(rep):
         err = history_error(case['hp'], case['N'], c0, ops)
         print('replay history:', err or 'property holds on this input')
         return 1 if err else 0
+    if kind == 'rhistory':
+        ops = [o if o == 'rev' else list(o) for o in case['ops']]
+        e = rhistory_error(case['hp'], case['N'], list(case['r0']), ops)
+        print('replay history with rejected requests:', (e[0] + ': ' + e[1]) if e else 'property holds on this input')
+        return 1 if e else 0
+    if kind == 'pspline-rhistory':
+        ops = [o if o == 'rev' else list(o) for o in case['ops']]
+        e = pspline_rhistory_error(case['hp'], case['n_x'], case['num_knots'], case['degree'], tuple(case['p0']), ops, case['seed'])
+        print('replay PSpline history with rejected requests:', (e[0] + ': ' + e[1]) if e else 'property holds on this input')
+        return 1 if e else 0
     if kind == 'fresh':
         class _R:
             fails = []
